@@ -1,5 +1,6 @@
 import PyatvModel.C04.Opack.Lemmas
 import PyatvModel.C04.Opack.RefLemmas
+import PyatvModel.Gen.C04OpackConsts
 /-
 C04 (OPACK part) â€” wire codec faithful to its format.
 
@@ -148,5 +149,15 @@ example : packInt 0x27 0 = some [0x2F] âˆ§ packInt 0x28 0 = some [0x30, 0x28] âˆ
 example : refPack (.dict [(.str [0x61], .bool false), (.str [0x62], .str [0x74, 0x65, 0x73, 0x74]),
     (.str [0x63], .str [0x74, 0x65, 0x73, 0x74])])
     = some [0xE3, 0x41, 0x61, 0x02, 0x41, 0x62, 0x44, 0x74, 0x65, 0x73, 0x74, 0x41, 0x63, 0xA2] := by decide
+
+/-! ### tie A: the literal constants of `opack._pack` / `opack._unpack` (re-extracted from the
+source tree on every run, `tools/gen/c04_opack.py`) are the ones transcribed into the model -/
+example : Gen.C04Opack.packInts = [1, 2, 3, 4, 8, 15, 32, 33, 40, 48, 49, 50, 51, 64, 97, 98, 99, 100, 112,
+    145, 146, 147, 148, 160, 193, 194, 195, 196, 208, 224, 255, 65535, 16777215, 4294967295,
+    18446744073709551615] := by decide
+example : Gen.C04Opack.packBytes = [3, 4, 5, 54] := by decide
+example : Gen.C04Opack.unpackInts = [0, 1, 2, 3, 4, 5, 6, 7, 8, 9, 15, 17, 47, 48, 53, 54, 64, 96, 100, 112,
+    144, 145, 148, 160, 192, 193, 196, 208, 224, 240] := by decide
+example : Gen.C04Opack.unpackBytes = [] := by decide
 
 end PyatvModel.Props.C04Opack
